@@ -12,6 +12,13 @@ type runArgs struct {
 	out    string
 	replay string
 	tier   string
+	// child processes
+	dir    string
+	cmp    int
+	delta  bool
+	conc   int
+	casep  string
+	budget int64
 }
 
 var commands = map[string]func(a runArgs) error{}
@@ -29,6 +36,12 @@ func main() {
 	fs.StringVar(&a.out, "out", "", "output directory")
 	fs.StringVar(&a.replay, "replay", "", "replay file")
 	fs.StringVar(&a.tier, "tier", "quick", "tier")
+	fs.StringVar(&a.dir, "dir", "", "directory (child commands)")
+	fs.IntVar(&a.cmp, "cmp", 0, "comparator (child commands)")
+	fs.BoolVar(&a.delta, "delta", false, "delta interleaving (child commands)")
+	fs.IntVar(&a.conc, "conc", 2, "concurrency (child commands)")
+	fs.StringVar(&a.casep, "case", "", "case file (child commands)")
+	fs.Int64Var(&a.budget, "budget", -1, "file size limit (child-store)")
 	fs.Parse(os.Args[2:])
 	f, ok := commands[cmd]
 	if !ok {
